@@ -52,6 +52,9 @@ def combine_patches(diffs):
 def adjust_patch_level(target_path, common_path, diff):
     n = len(target_path)
     assert common_path[:n] == target_path
+    if diff is None:
+        # A one-sided decision has no diff on the other side
+        return []
     if n == len(common_path):
         return diff
     remainder_path = tuple(reversed(common_path[n:]))
